@@ -444,4 +444,9 @@ inductive Completes : Pending → Prop where
 /-- no rank can move although some rank has not returned: deadlock -/
 def Stuck (w : Pending) : Prop := ¬ Done w ∧ ¬ ∃ w', Step w w'
 
+/-- reachable by matching steps -/
+inductive Reach : Pending → Pending → Prop where
+  | refl (w : Pending) : Reach w w
+  | step {w w' w'' : Pending} : Step w w' → Reach w' w'' → Reach w w''
+
 end PnVerif.World
